@@ -46,15 +46,16 @@ ENGINES = [
 
 TEXT = dict(
     design_ref="DESIGN.md section 4, C04",
-    technique="Coq model of commit/rollback + bounded exhaustive theorem + extracted-model differential",
-    text=("Proof: the full statement (every disciplined history agrees with the reference vector after every step) is REFUTED "
-          "on the faithful model by the one remaining known class (Props/C04.v: rollback of a truncating commit, then push or "
-          "delete of a restored slot, then write() -> WriteOutOfBounds with data loss).  Proved: C04_continuation_partial — all "
-          "177 156 histories up to length 5 over 11 operations (retention 1, 2) outside that class agree after every step; "
-          "C04_repaired_histories_agree (the histories of the five repaired defects and the chained rollback across a "
-          "truncating commit).  The unbounded induction (R5/R6) is not closed; the non-rollback continuation after a rollback "
-          "is covered by C03_step_refines, refusals by C16_fail_single / C16_fail_before; the rest is validated differentially "
-          "against the real vectors after every step."),
+    technique="Coq proof (unbounded induction with ghost levels) of commit/rollback + bounded exhaustive theorem + extracted-model differential",
+    text=("Proof (Props/C04.v, Vec/RvChain.v; all element types, retention k > 0, unbounded histories): C04_rollback_step, "
+          "C04_chain, C04_rollback_before, C04_continuation — every strict history (edits, commits with increasing stamps "
+          "whose record fits 64 bits, rollback / rollback_before from committed states that do not lengthen the vector) "
+          "agrees with the reference vector after every step; the invariant K (baseline + chain of valid records + "
+          "directory) is re-established by every step.  The full statement over all disciplined histories stays REFUTED by "
+          "the one remaining known class (rollback of a truncating commit, then push / delete of a restored slot, then "
+          "write() -> WriteOutOfBounds with data loss).  C04_continuation_partial (bounded: 177 156 histories, length <= 5, "
+          "retention 1, 2) additionally covers plain write/flush/re-import/reset between commits, which the strict class "
+          "excludes.  The model is validated against the real vectors after every step."),
     note=("Trusted: Coq kernel; extraction and the OCaml driver; the Rust harness.  The Rust code is modelled, not verified."),
 )
 
